@@ -29,6 +29,8 @@ def make_example(kinds):
         uses_rcu = sync == 2
         flavor = draw(st.sampled_from(RCU_FLAVORS)) if uses_rcu else "memb"
         head = ["scen cds_" + flavor, "cfg membarrier %d" % (draw(st.integers(0, 1)) if uses_rcu else 1)]
+        if draw(st.integers(0, 3)) == 0:
+            head.append("cfg addrline %d" % draw(st.integers(1, 14)))   # one allocation of the case sits exactly on a 4 GiB address line
         out = []
         for _ in range(gen.BATCH):
             sched = gen.schedule_lines(draw, tier, len(nops), nops, ndaemons=1 if uses_rcu else 0)
